@@ -15,12 +15,17 @@ func init() {
 	engine.Register(&engine.Check{
 		ID:    "C16",
 		Title: "Bridged Go functions, structs, maps and slices convert exactly or fail loudly",
-		Rule: "matrix (E1 full product): 34 Go parameter types x {sole, second of two, variadic tail with 1/2 extras, array as last argument, no extras} x " +
-			"the JS argument alphabet (every integer type's min-1/min/max/max+1 as int64 literal and as double, float32 boundaries, strings, booleans, null, undefined, " +
-			"objects, arrays with holes/mixed kinds, functions, Date, boxed primitives, bridged Go values passed back); every cell executed plain and inside try. " +
-			"arity: signatures x argument counts; returns: multi-return shapes. histories (E2): BFS over script-side and Go-side operations on 7 live containers, " +
-			"states deduplicated on the Go container's contents (+ the script-held alias after reallocation), every transition replayed on a fresh runtime and both views compared. " +
-			"A matrix cell is non-trivial when the callee was reached; a history transition is non-trivial when the operation completed without throwing.",
+		Rule: "matrix (E1 full product): 33 Go parameter types (bool, every int/uint width, float32/64, string, interface{}, otto.Value, []int, []string, " +
+			"[]interface{}, []byte, [][]int, [2]int, three map types, S, *S, *int, func(int) int, func() (int, error), json.RawMessage, MyInt, time.Duration) x " +
+			"{sole, second of two, variadic tail with 0/1/2 extras, array as last argument} x 129 JS arguments (every integer type's min-1/min/max/max+1 both as " +
+			"int64 literal and as double, float32 boundaries, NaN/Infinity/-0, strings, booleans, null, undefined, objects, arrays with holes/mixed kinds/nesting, " +
+			"functions, Date, boxed primitives, 15 Go values handed to the script and passed back); every cell is executed plain and inside try and judged by " +
+			"loudOK/match (exact or loud). arity: 7 signatures x 0..n+2 arguments; returns: 18 multi-return shapes. histories (E2): breadth-first over " +
+			"script-side operations (write k<-v, delete k, length=n, push, pop, method calls) and Go-side operations (set, insert, delete, append, reslice) on 7 live " +
+			"containers, sharded by (container, first operation), states deduplicated on (Go contents, script-held header, aliasing, script-only properties); " +
+			"every transition is replayed on a fresh container and judged by the transition relation plus view coherence (traversal, Object.keys, for-in, " +
+			"JSON.stringify, length, read and in for every key of the alphabet). lethal: delete of non-index keys on slices/arrays, each in a child process. " +
+			"A matrix cell is non-trivial when the callee was reached; a history transition when the operation completed without throwing.",
 		Families: []engine.Family{
 			{Name: "matrix", Run: runMatrix},
 			{Name: "arity", Run: runArity},
